@@ -36,6 +36,8 @@ def run_case(case):
         st = r.get("status", "ok")
         if st == "hang":
             return {"kind": kind, "violations": [("fix:hang", {"trace": r.get("trace", "")[-800:]})]}
+        if st == "parse_crash":
+            return {"kind": kind, "violations": [("parse:%s:%s" % (r["exc"], r["frame"]), {"trace": r["trace"]})]}
         if st != "ok":
             return {"kind": kind, "status2": st, "violations": []}
         v = [(x["key"], x["detail"]) for x in r["props"]["C19"]["violations"]]
@@ -43,6 +45,8 @@ def run_case(case):
     if kind == "check":
         s = fixrun.setup(case)
         if isinstance(s, dict):
+            if s["status"] == "parse_crash":
+                return {"kind": kind, "violations": [("parse:%s:%s" % (s["exc"], s["frame"]), {"trace": s["trace"]})]}
             return {"kind": kind, "status2": s["status"], "violations": []}
         oFile, oRules, a, oConfig = s
         try:
